@@ -361,6 +361,27 @@ def c12_cases(tier, rng):
             for p4 in (["valign", "sink"] if tier == "quick" else K.P4_SIZE_AWARE):
                 c = apply(n, e, dict(p1="dfs", p2=p2, p4=p4, p5="poly", size="fixed", ns=2, mon=1))
                 yield c
+    # wide layers: two (or three) layers of a few dozen nodes each, sparsely joined - rings u_i -> v_i, u_i -> v_(i+1), and random
+    # sparse bipartite graphs - so that the bilayer counter works on layer pairs of 24x24 .. 70x60 nodes
+    wide = []
+    for k in ((24, 33, 48) if tier == "quick" else (24, 31, 32, 33, 40, 48, 64, 70)):
+        wide.append(K.canon([(i, k + i) for i in range(k)] + [(i, k + (i + 1) % k) for i in range(k)]))
+        wide.append(K.canon([(i, k + i) for i in range(k)] + [(i, k + (i * 7 + 3) % k) for i in range(k)] +
+                            [(k + i, 2 * k + (i * 5 + 1) % k) for i in range(k)]))
+    for _ in range(6 if tier == "quick" else 60):
+        a, b = rng.randint(20, 70), rng.randint(20, 60)
+        es = set()
+        for i in range(a):
+            for j in rng.sample(range(b), rng.choice([1, 1, 2])):
+                es.add((i, a + j))
+        for j in range(b):
+            if not any(v == a + j for _, v in es):
+                es.add((rng.randrange(a), a + j))
+        wide.append(K.canon(sorted(es)))
+    for n, e in wide:
+        for p2 in (["ns"] if tier == "quick" else K.P2S):
+            for p4 in (["valign"] if tier == "quick" else ["valign", "sink"]):
+                yield apply(n, e, dict(p1="dfs", p2=p2, p4=p4, p5="poly", size="fixed", ns=2, mon=1))
 
 
 def c13_cases(tier, rng):
